@@ -16,9 +16,14 @@
 (* invariants in every intermediate state; the laws of C05 / C07 / C08 are stated on the  *)
 (* static spec tree and on the dynamic parent chain, never on the breadcrumb fields.     *)
 (*                                                                                     *)
+(* Targets are sequences of integers: <<0>> the root target, <<n>> the fresh result of leaf *)
+(* execution n, Append(t, j) item j of t, <<-1, f>> the container built by frame f,          *)
+(* <<-2>> \o t the one-entry dict {'K': t} an mdict feeds to its pattern, <<-3>> its key,      *)
+(* <<-4, f>> the dict a match-dict frame f returns.                                          *)
+(*                                                                                     *)
 (* Spec trees: node = [k |-> kind, a |-> attribute, c |-> <<children>>]                  *)
 (*   leaves   new (returns a fresh target) | same (returns its target) -- both consult    *)
-(*            the plan and may fail --  | probe (logs the mode in force) | read (a: name;  *)
+(*            the plan and may fail -- | fail (always raises) | probe (logs the mode in force) | read (a: name;  *)
 (*            logs what S.name resolves to)  | sbind (a: name; S(name=Val(path)))          *)
 (*            | abind (a: name; A.name: binds the current target)                          *)
 (*            | gbind / gread (a: name; A.globals.name / S.globals.name)                   *)
@@ -33,7 +38,7 @@ CONSTANT Mutant    \* "none": glom as repaired;  otherwise a named deviation of 
 
 N(k, a, c) == [k |-> k, a |-> a, c |-> c]
 
-GlomitKinds == {"new", "same", "probe", "read", "sbind", "abind", "gbind", "gread", "pipe", "coal",
+GlomitKinds == {"new", "same", "fail", "probe", "read", "sbind", "abind", "gbind", "gread", "pipe", "coal",
                 "or", "and", "not", "switch", "mdict", "auto", "fill", "match", "spec"}
 ModeOf(k) == CASE k = "auto" -> "AUTO" [] k = "fill" -> "FILL" [] k = "match" -> "MATCH"
 
@@ -99,7 +104,7 @@ Resolve(frames, f, name) ==
 \* ---- control: Run ------------------------------------------------------------------------------
 Res(st, out, res, org, e) == [st |-> st, out |-> out, res |-> res, org |-> org, e |-> e]
 NewErr(st) == [st EXCEPT !.eid = @ + 1]
-Log(st, rec) == [st EXCEPT !.log = Append(@, rec)]
+Log(st, rec) == [st EXCEPT !.log = Append(@, rec @@ [at |-> Len(st.acts)])]   \* at: actions taken so far
 
 RECURSIVE Run(_, _, _, _, _), RunChain(_, _, _, _, _, _, _), RunAll(_, _, _, _, _, _, _),
           RunCoal(_, _, _, _, _, _), RunOr(_, _, _, _, _, _), RunAnd(_, _, _, _, _, _, _),
@@ -118,6 +123,7 @@ Run(st0, par, node, path, tgt) ==
                    st3 == [st2 EXCEPT !.leaf = n]
                IN IF o = "err" THEN Res(NewErr(st3), "err", tgt, f, st3.eid + 1)
                   ELSE Res(st3, "ok", IF node.k = "new" THEN <<n>> ELSE tgt, 0, 0)
+          [] node.k = "fail" -> Res(NewErr(st2), "err", tgt, f, st2.eid + 1)      \* a leaf that always raises
           [] node.k = "probe" ->
                Res(Log(st2, [p |-> path, what |-> "mode", v |-> st2.frames[f].mode]), "ok", tgt, 0, 0)
           [] node.k = "read" ->
@@ -135,7 +141,9 @@ Run(st0, par, node, path, tgt) ==
                    sd == SetMin(SetMin(sc, c, FALSE), f, FALSE)
                IN Res(Bind(sd, f, node.a, <<"b">> \o path), "ok", tgt, 0, 0)
           [] node.k = "abind" -> Res(Bind(st2, f, node.a, <<"t">> \o tgt), "ok", tgt, 0, 0)
-          [] node.k = "gbind" -> Res([st2 EXCEPT !.gl = Append(@, <<node.a, <<"t">> \o tgt>>)], "ok", tgt, 0, 0)
+          [] node.k = "gbind" ->
+               Res(Act([st2 EXCEPT !.gl = Append(@, <<node.a, <<"t">> \o tgt>>)],
+                       [a |-> "gbind", f |-> f, name |-> node.a, val |-> <<"t">> \o tgt]), "ok", tgt, 0, 0)
           [] node.k = "spec" -> Run(Bind(st2, f, node.a, <<"b">> \o path), f, node.c[1], Append(path, 1), tgt)
           [] node.k \in {"auto", "fill", "match"} ->
                Run(SetMode(st2, f, ModeOf(node.k)), f, node.c[1], Append(path, 1), tgt)
@@ -161,15 +169,15 @@ Run(st0, par, node, path, tgt) ==
                \* MDict(k, v) wraps the target into {'K': target} and evaluates the raw dict
                \* {k: v}; under MATCH this is the match-dict handler: key spec, then the value
                \* spec chained from it
-               LET st3 == Enter(st2, f, Append(path, 0), <<"K">> \o tgt)
+               LET st3 == Enter(st2, f, Append(path, 0), <<-2>> \o tgt)
                    d == Len(st3.frames)
-                   rk == Run(st3, d, node.c[1], Append(path, 1), <<"key">>)
+                   rk == Run(st3, d, node.c[1], Append(path, 1), <<-3>>)
                    inner ==
                      IF rk.out = "err"
                      THEN Res(NewErr(rk.st), "err", tgt, d, rk.st.eid + 1)        \* key didn't match any
                      ELSE LET ch == Chain(rk.st, d)
                               rv == Run(ch.st, ch.s, node.c[2], Append(path, 2), tgt)
-                          IN IF rv.out = "err" THEN rv ELSE Res(rv.st, "ok", <<"md", d>>, 0, 0)
+                          IN IF rv.out = "err" THEN rv ELSE Res(rv.st, "ok", <<-4, d>>, 0, 0)
                IN IF inner.out = "err" THEN Res(Fail(inner.st, d, inner.e), "err", tgt, inner.org, inner.e) ELSE inner
   IN IF r.out = "err" THEN Res(Fail(r.st, f, r.e), "err", r.res, r.org, r.e) ELSE r
 
@@ -182,20 +190,20 @@ RunChain(st, f, node, path, i, scope, cur) ==
 
 \* all children on the same target, as children of f (dict values, Fill containers)
 RunAll(st, f, node, path, i, tgt, acc) ==
-  IF i > Len(node.c) THEN Res(st, "ok", <<"c", f>>, 0, 0)
+  IF i > Len(node.c) THEN Res(st, "ok", <<-1, f>>, 0, 0)
   ELSE LET r == Run(st, f, node.c[i], Append(path, i), tgt)
        IN IF r.out = "err" THEN r ELSE RunAll(r.st, f, node, path, i + 1, tgt, Append(acc, r.res))
 
 \* FILL / ARG dict: {recurse(key): recurse(val)}: a frame for the (literal) key, then the value
 RunFillDict(st, f, node, path, i, tgt) ==
-  IF i > Len(node.c) THEN Res(st, "ok", <<"c", f>>, 0, 0)
+  IF i > Len(node.c) THEN Res(st, "ok", <<-1, f>>, 0, 0)
   ELSE LET stk == Enter(st, f, Append(Append(path, i), 0), tgt)
            r == Run(stk, f, node.c[i], Append(path, i), tgt)
        IN IF r.out = "err" THEN r ELSE RunFillDict(r.st, f, node, path, i + 1, tgt)
 
 \* _handle_list: the sub-spec over each item of the target (targets have two items)
 RunItems(st, f, node, path, j, tgt, acc) ==
-  IF j > 2 THEN Res(st, "ok", <<"c", f>>, 0, 0)
+  IF j > 2 THEN Res(st, "ok", <<-1, f>>, 0, 0)
   ELSE LET r == Run(st, f, node.c[1], Append(path, 1), Append(tgt, j))
        IN IF r.out = "err" THEN r ELSE RunItems(r.st, f, node, path, j + 1, tgt, Append(acc, r.res))
 
@@ -246,4 +254,54 @@ LexMode(tree, path, cur) ==
   ELSE LexMode(tree.c[Head(path)], Tail(path), IF tree.k \in {"auto", "fill", "match"} THEN ModeOf(tree.k) ELSE cur)
 ModeLexical(tree, acts) ==
   \A i \in 1..Len(acts) : acts[i].a = "enter" => acts[i].mode = LexMode(tree, acts[i].path, "AUTO")
+
+\* ---- LAW C07: lexical visibility of scope bindings, stated on the static tree ---------------------
+\* Which binding does a reader of `name` at node path rp see?  Walk up from the reader: at every
+\* level, if the parent is a *chain* (Pipe; a tuple whose lexical mode is AUTO; a Switch case
+\* key -> value; a match-dict entry key -> value) the earlier steps of that chain are scanned from
+\* the nearest one backwards -- only a step that *is itself* a binder counts (S(k=..), A.k, or a
+\* Spec(scope=) node: its binding lives in the step's own frame); a binder nested deeper inside an
+\* earlier step is invisible.  Then the parent itself is considered (a Spec(scope=) ancestor binds
+\* for its subtree).  The first hit wins (inner shadows outer); with no hit the caller's scope
+\* decides.  The result is the value token the mechanism would log: <<"b">> \o path for S(..) /
+\* Spec(scope=) binders, "t"-marked for A.k (the target it received is dynamic: only the binder's
+\* identity is predicted by the law), <<"inv">> when nothing is visible.
+IsBinderOf(nd, name) == nd.k \in {"sbind", "abind", "spec"} /\ nd.a = name
+IsChainAt(tree, pp) ==        \* is the node at path pp a chain of its children?
+  LET nd == NodeAt(tree, pp) IN
+  \/ nd.k = "pipe"
+  \/ nd.k = "tup" /\ LexMode(tree, pp, "AUTO") = "AUTO"
+\* steps before child i that chain into it
+EarlierSteps(tree, pp, i) ==
+  LET nd == NodeAt(tree, pp) IN
+  IF IsChainAt(tree, pp) THEN [j \in 1..(i - 1) |-> i - j]                      \* i-1, i-2, ..., 1
+  ELSE IF nd.k = "switch" /\ i % 2 = 0 THEN <<i - 1>>                          \* value spec <- its key spec
+  ELSE IF nd.k = "mdict" /\ i = 2 THEN <<1>>
+  ELSE <<>>
+RECURSIVE FirstBinder(_, _, _, _, _)
+FirstBinder(tree, pp, steps, name, j) ==
+  IF j > Len(steps) THEN <<>>
+  ELSE LET cp == Append(pp, steps[j]) IN
+       IF IsBinderOf(NodeAt(tree, cp), name) THEN cp ELSE FirstBinder(tree, pp, steps, name, j + 1)
+RECURSIVE VisibleFrom(_, _, _)
+VisibleFrom(tree, p, name) ==       \* path of the binder visible at node path p (excluding p itself), or <<0>>
+  IF p = <<>> THEN <<0>>
+  ELSE LET pp == SubSeq(p, 1, Len(p) - 1)
+           i == p[Len(p)]
+           hit == FirstBinder(tree, pp, EarlierSteps(tree, pp, i), name, 1)
+       IN IF hit # <<>> THEN hit
+          ELSE IF NodeAt(tree, pp).k = "spec" /\ NodeAt(tree, pp).a = name THEN pp
+          ELSE VisibleFrom(tree, pp, name)
+\* does the log entry of a reader agree with the law?  (binder identity; caller scope otherwise)
+ReadAgrees(tree, entry, name, callerHas) ==
+  LET b == VisibleFrom(tree, entry.p, name) IN
+  IF b = <<0>> THEN (IF callerHas THEN entry.v = <<"c">> ELSE entry.v = <<"inv">>)
+  ELSE LET nd == NodeAt(tree, b) IN
+       IF nd.k = "abind" THEN Head(entry.v) = "t" ELSE entry.v = <<"b">> \o b
+\* S.globals / A.globals: one namespace per top-level call; a reader sees the latest assignment
+\* executed before it in this call, wherever the two are placed (acts = the call's action sequence)
+GlobalAgrees(acts, entry, name) ==
+  LET G == {j \in 1..entry.at : j <= Len(acts) /\ acts[j].a = "gbind" /\ acts[j].name = name} IN
+  IF G = {} THEN entry.v = <<"inv">>
+  ELSE entry.v = acts[CHOOSE j \in G : \A m \in G : m <= j].val
 ====================================================================================
